@@ -322,6 +322,8 @@ func (r *runner) run(ctx context.Context, isStream bool, input any, opts ...Opti
 				isSubGraph,
 				cm,
 				isStream,
+				nil,
+				nil,
 			)
 		}
 
@@ -357,11 +359,16 @@ func (r *runner) run(ctx context.Context, isStream bool, input any, opts ...Opti
 					interruptRerunNodes,
 					subGraphInterrupts,
 					interruptAfterNodes,
-					append(completedTasks, newCompletedTasks...),
+					// completedTasks have already been resolved into nextTasks above: resolving
+					// them a second time would evaluate their branches and copy their streams again
+					// and lose the inputs the channels have already handed out
+					newCompletedTasks,
 					checkPointID,
 					isSubGraph,
 					cm,
 					isStream,
+					interruptBeforeNodes,
+					nextTasks,
 				)
 			}
 
@@ -471,6 +478,8 @@ func (r *runner) handleInterruptWithSubGraphAndRerunNodes(
 	isSubGraph bool,
 	cm *channelManager,
 	isStream bool,
+	interruptBeforeNodes []string,
+	pendingTasks []*task, // next tasks that were already taken out of the channels
 ) error {
 	var rerunTasks, subgraphTasks, otherTasks []*task
 	skipPreHandler := map[string]bool{}
@@ -516,10 +525,14 @@ func (r *runner) handleInterruptWithSubGraphAndRerunNodes(
 		cp.State = state.state
 	}
 	intInfo := &InterruptInfo{
-		State:      cp.State,
-		AfterNodes: interruptAfterNodes,
-		RerunNodes: interruptRerunNodes,
-		SubGraphs:  make(map[string]*InterruptInfo),
+		State:       cp.State,
+		BeforeNodes: interruptBeforeNodes,
+		AfterNodes:  interruptAfterNodes,
+		RerunNodes:  interruptRerunNodes,
+		SubGraphs:   make(map[string]*InterruptInfo),
+	}
+	for _, t := range pendingTasks {
+		cp.Inputs[t.nodeKey] = t.input
 	}
 	for _, t := range subgraphTasks {
 		if isStream {
